@@ -99,8 +99,13 @@ func (h *chaosH) Handle(resp tq.Response, req tq.Request) {
 				id := r.feedIdx
 				resp.Next(&chaosH{run: r, hid: id})
 				r.rec.Emit(E{"e": "reg", "id": id})
-			case "reply", "restart", "badreply":
-				v, kind := makeReply(hd.Type, op, p)
+			case "reply", "restart", "badreply", "xreply":
+				ty := hd.Type
+				if op == "xreply" {
+					// a catch-all handler answering with a body of another family (e.g. an authentication ERROR for an accounting request)
+					ty = tq.HeaderType(1 + int(hd.Type)%3)
+				}
+				v, kind := makeReply(ty, op, p)
 				cb, _ := v.MarshalBinary() // the clear reply body the handler hands to Reply (nil if it does not validate)
 				r.rec.Emit(E{"e": "rep", "k": kind, "op": op, "cb": B(cb)})
 				resp.Reply(v)
@@ -122,6 +127,11 @@ func pad(n int, c byte) string {
 }
 
 func makeReply(ty tq.HeaderType, op string, p *Pkt) (tq.EncoderDecoder, string) {
+	if op == "xreply" {
+		q := *p
+		q.Rst = 0 // the status chosen for the packet's own family means nothing in another one
+		p = &q
+	}
 	sz := p.Rsz
 	switch ty {
 	case tq.Authenticate:
